@@ -12,6 +12,8 @@ CONFIGS = [
     ('chan', dict(B, NRoots=3, MaxActs=3, RootOps=3, NChans=1, Menu={'instant', 'cput', 'cget', 'cclose'})),
     ('scope', dict(B, NRoots=2, MaxActs=4, RootOps=4, TaskOps=1,
                    Menu={'instant', 'open', 'do', 'leave', 'await_t', 'until_f', 'fset'})),
+    ('await_scope', dict(B, NRoots=2, MaxActs=3, RootOps=4, TaskOps=1, Menu={'instant', 'open', 'do', 'leave', 'await_s'})),
+    ('levels', dict(B, NRoots=3, MaxActs=3, RootOps=3, NRes=1, MaxPools=2, ResInit=1, Menu={'instant', 'await_lvl', 'rchange'})),
 ]
 
 
